@@ -46,20 +46,32 @@ Leaves == {Leaf("int"), Leaf("text")}
 Freezable == {"list", "set", "map", "tuple", "udt"}
 Dims == {2}
 
-\* UDTs of the (only) keyspace "ks": name -> field names.  "kj" has two fields, the others one.
+\* UDTs: name -> field names.  "kj" has two fields, the others one.  All live in keyspace "ks" except those of
+\* UdtKs below.
 \* "Kj", "Big Type", "other-udt" and a"b need quoting in CQL (mixed case, space, dash, embedded double quote).
 UdtFields == ("u" :> <<"f1">>) @@ ("kj" :> <<"f1", "F2">>) @@ ("Kj" :> <<"f1">>)
           @@ ("Big Type" :> <<"f1">>) @@ ("other-udt" :> <<"f1">>) @@ ("a\"b" :> <<"f1">>)
           @@ ("it's" :> <<"f1">>)                    \* an apostrophe is an ordinary character of a quoted identifier
+          \* names that are ALSO plain-name tokens of descriptors (used in the parse histories only, see HTrees):
+          \* a type called like its keyspace, a type called like the other types' keyspace, a type called like a
+          \* marshal class, and a type living in a keyspace that is called like a marshal class
+          @@ ("shop" :> <<"f1">>) @@ ("shopitem" :> <<"f1">>) @@ ("ks" :> <<"f1">>) @@ ("Int32Type" :> <<"f1">>)
+          @@ ("inbuilt" :> <<"f1">>)
 UdtNames  == DOMAIN UdtFields
+\* keyspace of a user type
+UdtKs == [nm \in UdtNames |-> IF nm \in {"shop", "shopitem"} THEN "shop" ELSE IF nm = "inbuilt" THEN "Int32Type" ELSE "ks"]
 \* hex(ASCII) as Cassandra prints names inside UserType(...)
 Hex == ("u" :> "75") @@ ("kj" :> "6b6a") @@ ("Kj" :> "4b6a") @@ ("f1" :> "6631") @@ ("F2" :> "4632")
     @@ ("Big Type" :> "4269672054797065") @@ ("other-udt" :> "6f746865722d756474") @@ ("a\"b" :> "612262")
     @@ ("it's" :> "69742773")
+    @@ ("shop" :> "73686f70") @@ ("shopitem" :> "73686f706974656d") @@ ("ks" :> "6b73")
+    @@ ("Int32Type" :> "496e74333254797065") @@ ("inbuilt" :> "696e6275696c74")
 \* the name as a CQL identifier (ColumnIdentifier.maybeQuote, see CqlLex.tla: Quote doubles the double quote)
 UdtCql == ("u" :> "u") @@ ("kj" :> "kj") @@ ("Kj" :> "\"Kj\"")
        @@ ("Big Type" :> "\"Big Type\"") @@ ("other-udt" :> "\"other-udt\"") @@ ("a\"b" :> "\"a\"\"b\"")
        @@ ("it's" :> "\"it's\"")
+       @@ ("shop" :> "shop") @@ ("shopitem" :> "shopitem") @@ ("ks" :> "ks") @@ ("Int32Type" :> "\"Int32Type\"")
+       @@ ("inbuilt" :> "inbuilt")
 
 \* trees by depth.  NF(d): not rooted at frozen / reversed; All(d): with frozen roots
 RECURSIVE NF(_)
@@ -140,7 +152,7 @@ CassName(t) ==
     CASE t.k \in {"int", "text"} -> <<MarshalClass[t.k]>>
       [] t.k = "frozen" /\ t.a[1].k \in {"tuple", "udt"} -> CassName(t.a[1])            \* implicitly frozen
       [] t.k = "udt" ->
-            <<"UserType", "(", "ks", ",", Hex[t.nm], ",">>
+            <<"UserType", "(", UdtKs[t.nm], ",", Hex[t.nm], ",">>
             \o Joined([i \in 1..Len(t.a) |-> <<Hex[UdtFields[t.nm][i]], ":">> \o CassName(t.a[i])], ",") \o <<")">>
       [] t.k = "vector" -> <<"VectorType", "(">> \o CassName(t.a[1]) \o <<" , ", ToString(t.d), ")">>
       [] OTHER -> <<MarshalClass[t.k], "(">> \o Joined([i \in 1..Len(t.a) |-> CassName(t.a[i])], ",") \o <<")">>
@@ -162,13 +174,32 @@ VARIABLES t,          \* the type tree
           cassok,     \* CassOk(t)
           cql,        \* CqlName(t)
           stripped,   \* CqlName(StripFrozen(t))
-          py          \* PyForm(t): the structure cqltype_to_python(CqlName(t)) must have
-vars == <<t, cass, cassok, cql, stripped, py>>
+          py,         \* PyForm(t): the structure cqltype_to_python(CqlName(t)) must have
+          prev        \* parse history: the descriptors (token sequences) parsed BEFORE t's by the same process
+vars == <<t, cass, cassok, cql, stripped, py, prev>>
 
+\* The answers are functions of the tree alone: whatever was parsed before, the descriptor of t denotes t.
 Is(tt) == /\ t = tt /\ cass = CassName(tt) /\ cassok = CassOk(tt) /\ cql = CqlName(tt)
           /\ stripped = CqlName(StripFrozen(tt)) /\ py = PyForm(tt)
 
-Init == \E tt \in Trees : Is(tt)
+\* Parse histories.  A descriptor contains plain-name tokens (the keyspace of a UserType, class names) next to the
+\* hex-encoded names.  HTrees are descriptors in which a user type's NAME equals such a token of another (or the
+\* same) descriptor; every ordered pair <<first parsed, then parsed>> of them is a case, plus each of them alone.
+HQ(nm, x) == Un("frozen", Udt(nm, <<x>>))
+HTrees == { HQ("shop", Leaf("int")),                 \* shop.shop
+            HQ("shopitem", Leaf("text")),            \* shop.shopitem: its keyspace token is the name of the type above
+            HQ("ks", Leaf("int")),                   \* ks.ks
+            Un("frozen", Udt("kj", <<Leaf("int"), Leaf("text")>>)),      \* an ordinary type of keyspace ks
+            HQ("Int32Type", Leaf("text")),           \* ks."Int32Type"
+            HQ("inbuilt", Leaf("int")),              \* "Int32Type".inbuilt
+            Un("list", Leaf("int")),
+            Bin("map", Leaf("int"), HQ("shop", Leaf("int"))),
+            Un("frozen", Bin("tuple", HQ("shop", Leaf("int")), HQ("shop", Leaf("int")))),    \* twice in ONE descriptor
+            Un("frozen", Bin("tuple", HQ("ks", Leaf("int")), Un("frozen", Udt("kj", <<Leaf("int"), Leaf("text")>>)))) }
+Histories == {<<>>} \cup {<<CassName(p)>> : p \in HTrees}
+
+Init == \/ prev = <<>> /\ \E tt \in Trees : Is(tt)
+        \/ prev \in Histories /\ \E tt \in HTrees : Is(tt)
 Next == UNCHANGED vars                       \* enumerator: the initial states are the cases
 
 \* growing trees one constructor at a time (simulation of deeper trees in the thorough tier)
@@ -178,11 +209,12 @@ Grown(x) ==  {Un("list", x), Un("set", x), Un("tuple", x), Udt("u", <<x>>), Udt(
         \cup {Bin("tuple", x, y) : y \in Small} \cup {Udt("kj", <<y, x>>) : y \in Small}
         \cup (IF x.k \in Freezable THEN {Un("frozen", x)} ELSE {})
         \cup {Un("reversed", x)}
-InitGrow == \E tt \in Small : Is(tt)
+InitGrow == prev = <<>> /\ \E tt \in Small : Is(tt)
 Grow == /\ t.k # "reversed"
         /\ \E tt \in Grown(t) : /\ Depth(tt) <= MaxDepth
                                /\ t' = tt /\ cass' = CassName(tt) /\ cassok' = CassOk(tt) /\ cql' = CqlName(tt)
                                /\ stripped' = CqlName(StripFrozen(tt)) /\ py' = PyForm(tt)
+        /\ UNCHANGED prev
 
 -----------------------------------------------------------------------------
 \* checked on the specification
@@ -215,6 +247,9 @@ ReversedOutermostOnly == \A i \in 1..Len(cass) : cass[i] = "ReversedType" => i =
 Witness_FrozenInside == ~(cassok /\ t.k = "map" /\ t.a[2].k = "frozen" /\ t.a[2].a[1].k = "udt")
 Witness_ReversedVector == ~(cassok /\ t.k = "reversed" /\ t.a[1].k = "vector")
 Witness_NotCassOk == ~(~cassok /\ t.k = "tuple")
+\* the specification's answers never depend on the history
+HistoryIndependent == cass = CassName(t) /\ cql = CqlName(t) /\ cassok = CassOk(t)
+Witness_NameIsLaterKeyspace == ~(prev = <<CassName(HQ("shop", Leaf("int")))>> /\ t = HQ("shopitem", Leaf("text")))
 Witness_ThreeQuoted == ~(~cassok /\ t \in QTrees /\ t.k = "map" /\ Len(py[2]) = 3 /\ py[2][1] = "\"a\"\"b\""
                            /\ py[2][3] = <<"tuple", <<"\"Big Type\"", "\"other-udt\"">>>>)
 Witness_StripChanges == ~(stripped # cql /\ Len(cql) - Len(stripped) >= 6)
